@@ -857,7 +857,8 @@ func runOptions(c *mc.Ctx, r *mc.Result) {
 				if class != "" {
 					r.Violate("options", class, msg, cs)
 				}
-				if ri%97 == 0 {
+				{
+					// the same case with a nil handler: rejected whatever the options are
 					cs.NilH = true
 					class, msg = evalCase(cs)
 					r.Evaluations++
